@@ -311,6 +311,9 @@ def replay_file(pid, path):
     if line[1] == "grouping":
         import emit_props
         return emit_props.replay_grouping(pid, path)
+    if line[1] == "lower":
+        import lower_props
+        return lower_props.replay_lower(pid, line, path)
     if line[1] == "lowercompound":
         import tc_props
         r = tc_props.finish_lower_compound({"statement": "", "model": {}}, line[2], os.path.join(common.WORK_DIR, pid, "replay"))
